@@ -817,6 +817,8 @@ class Extractor {
     O["file"] = fileOf(RD->getLocation());
     O["line"] = (int64_t)lineOf(RD->getLocation());
     O["is_template_spec"] = isa<ClassTemplateSpecializationDecl>(RD);
+    // can an object with static storage duration be constant-initialised by its default constructor?
+    O["constexpr_default_ctor"] = RD->hasDefaultConstructor() && RD->hasConstexprDefaultConstructor();
     json::Array Fields;
     for (const FieldDecl *FDn : RD->fields()) {
       json::Object FJ;
